@@ -91,9 +91,15 @@ class AndersonAcceleration:
             self._Fk[:, col] = fk - self._fkm1
             self._Gk[:, col] = gk - self._gkm1
 
-            # Solve least squares problem
-            lstsq_solution = sp.linalg.lstsq(self._Fk[:, 0:mk], fk)
-            gamma_k = lstsq_solution[0]
+            # Solve least squares problem. Columns of Fk which vanish relative to the
+            # current increment (two consecutive increments coincide up to rounding)
+            # carry no information; mixing with them amplifies rounding errors by the
+            # inverse of their norm and destroys the iterate. Leave them out.
+            Fk = self._Fk[:, 0:mk]
+            active = np.linalg.norm(Fk, axis=0) > 1e-10 * np.linalg.norm(fk)
+            gamma_k = np.zeros(mk, dtype=float)
+            if np.any(active):
+                gamma_k[active] = sp.linalg.lstsq(Fk[:, active], fk)[0]
             # Do the mixing
             xkp1 = gk - np.dot(self._Gk[:, 0:mk], gamma_k)
         else:
